@@ -155,7 +155,7 @@ func exploreSubtree(sc *Scenario, root []int, maxExecs int64, deadline time.Time
 					if p.Dev+p.Cost > sc.MaxDev {
 						continue
 					}
-				} else if p.CurEnabled && p.Pre+1 > sc.MaxPre {
+				} else if p.Pre+sc.Opts.ThreadCost(p.CurEnabled, alt) > sc.MaxPre {
 					continue
 				}
 				child := make([]int, i+1)
